@@ -114,3 +114,17 @@ PROPS["C15"] = {
     "level_text": "Kernel-checked theorems over the Deadline/Time/Futex models: for every deadline value the timespec handed to the kernel satisfies the futex contract (no EINVAL, so the ASSERT cannot fire), a pre-epoch deadline is clamped to an instant that is still expired and the library's re-check then reports ETIMEDOUT, no_deadline (and only it) means no timeout, classification expired/future agrees with integer time, nsync_wait_n short-circuits exactly the deadlines at or before zero; no early timeout and an expired deadline needs no wake-up for the semaphore (C12 theorems). Tied to the code by the real-platform probe: every timed entry point x the property's boundary set of deadlines x {C build, C++ build}, one child process per case on the real futex/kernel; the observed outcome class (prompt timeout / timeout at deadline / event / crash / hang) must equal the model's.",
     "level_note": "The futex(2) timeout contract is an assumption, re-validated against the running kernel by the probe on every run. The probe uses wall-clock time: generous margins (prompt < 1 s, future deadline = now + 300 ms, hang = 4 s). Entry-point control flow above the semaphore is tied by the probe and by the lockstep layers of C04/C05/C10/C11, not re-proved here.",
 }
+
+PROPS["C03"] = {
+    "imports": ["NsyncVerif.Props.C03", "NsyncVerif.Proofs.VC"],
+    "theorems": ["NsyncVerif.Props.C03." + t for t in ["C03_release_chain", "C03_mutex_handoff", "C03_release_recorded", "C03_released_monotone",
+                 "C03_unlock_happens_before_lock", "C03_orders_required"]] +
+                ["NsyncVerif.VC." + t for t in ["vc_mono_run", "acq_sees_relc", "rel_records", "release_chain_run", "message_passing",
+                 "relaxed_load_no_edge", "relaxed_store_breaks"]],
+    "layers": ["vc", "mux", "once"],
+    "oracles": {"vc"},
+    "plan": {"quick": [("core", 80, 6), ("cv", 50, 6), ("muwait", 50, 6), ("once", 60, 6), ("ctr", 60, 6)],
+             "thorough": [("core", 800, 12), ("cv", 500, 12), ("muwait", 500, 12), ("once", 600, 12), ("ctr", 600, 12), ("mixed", 500, 12)]},
+    "level_text": "Kernel-checked theorems: (1) over the MuX protocol with declared orders and ghost vector clocks — the release clock of the mutex word always covers every past release point (C03_release_chain), so whatever a thread did before giving up its share happens before the continuation of every thread that later comes to own a share, for all interleavings and any number of threads, using only acquire/release strength and the C++20 release-sequence rule (C03_unlock_happens_before_lock); the acceptor requires acquire on every share/spinlock-taking write, release on every share/spinlock-releasing write and release on the plain stores (C03_orders_required); (2) over the generic vector-clock machine — the message-passing theorem (release write, then only RMWs / dominated release stores, then acquire read ⇒ happens-before) that the once / note / counter / signal hand-offs instantiate. Tied to the code by lockstep: every atomic operation of every explored execution goes through the vc layer (which also checks the five hand-offs of the statement on the real executions: data-race detector for mutex-protected data, once end→return, note set→observation, counter zero→wait return, signal→woken return) and the mutex word's operations through MuX's order checks.",
+    "level_note": "The once / note / counter / signal edges are proved as instances of the generic message-passing theorem only informally: that each layer's return path reads, with acquire, a value written with release is enforced by the layer acceptors' order checks and verified on every explored execution by the vc layer, but the product of each layer model with the clock machine is not yet a theorem (partial). Orders of sites no explored schedule reaches are not covered by lockstep. SC interleavings only, as the property specifies.",
+}
